@@ -181,6 +181,8 @@ class Run:
         self.with_stack: List[str] = []
         self.loading: set = set()
         self.steps = 0
+        self.held: List[Any] = []  # keys of the context managers currently entered (locks held by the analysed thread)
+        self.deferred: Dict[Any, List[Callable]] = {}  # lock key -> actions of a blocked (modelled) other thread
 
     # -- choices
     def choose(self, n: int, loc: str, text: str) -> int:
@@ -780,6 +782,9 @@ class Interp:
                     yield c.items[i]
                     i += 1
                 return
+            if isinstance(c, HObj) and isinstance(c.fields.get("@mapping"), Ref):
+                yield from self.iterate(run, c.fields["@mapping"], node)  # dict-like record (e.g. a modelled SimpleCookie)
+                return
             if isinstance(c, HDict):
                 for k in list(c.items.keys()):
                     yield C(k)
@@ -823,6 +828,7 @@ class Interp:
             names.append((nm, cm))
             run.effect("with.enter", (cm,), {"name": C(nm)}, node=item.context_expr)
             run.with_stack.append(nm)
+            run.held.append(cm.key())
             if item.optional_vars is not None:
                 self.assign(run, item.optional_vars, cm, env)
         try:
@@ -830,7 +836,11 @@ class Interp:
         finally:
             for nm, cm in reversed(names):
                 run.with_stack.pop()
+                run.held.remove(cm.key()) if cm.key() in run.held else None
                 run.effect("with.exit", (cm,), {"name": C(nm)}, node=st)
+                # another (modelled) thread that was blocked on this lock runs now
+                for act in run.deferred.pop(cm.key(), []):
+                    act()
 
     def st_Try(self, run, st, env):
         try:
@@ -1265,13 +1275,39 @@ class Interp:
         if fn.qualname in self.cfg.record_calls:
             run.effect(f"enter:{fn.qualname}", tuple(args), kwargs, node=node)
         run.stack.append(fn.qualname)
+        is_gen = self._is_generator(fi)
+        if is_gen:
+            env.vars["@yielded"] = run.alloc(HList([]))
         try:
             self.exec_block(run, fi.node.body, env)
-            return NONE
+            return env.vars["@yielded"] if is_gen else NONE
         except ReturnSig as r:
-            return r.value
+            return env.vars["@yielded"] if is_gen else r.value
         finally:
             run.stack.pop()
+
+    def _is_generator(self, fi) -> bool:
+        g = getattr(fi, "_is_gen", None)
+        if g is None:
+            g = any(isinstance(n, (ast.Yield, ast.YieldFrom)) for n in self.index.own_nodes(fi.node))
+            fi._is_gen = g
+        return g
+
+    def ex_Yield(self, run, node, env):
+        """Generator bodies are run eagerly: the values yielded are collected in order (sound for generators whose
+        body has no effects that must interleave with the consumer; effects are still recorded, in producer order)."""
+        y = env.lookup("@yielded")
+        if y is None:
+            raise Unsupported(f"yield outside an analysed generator at {self.locof(node)}")
+        run.cell(y).items.append(self.eval(run, node.value, env) if node.value is not None else NONE)
+        return NONE
+
+    def ex_YieldFrom(self, run, node, env):
+        y = env.lookup("@yielded")
+        if y is None:
+            raise Unsupported(f"yield from outside an analysed generator at {self.locof(node)}")
+        run.cell(y).items.extend(list(self.iterate(run, self.eval(run, node.value, env), node)))
+        return NONE
 
     def bind_params(self, run, fi, env: Env, args: List[Value], kwargs: Dict[str, Value], node):
         a = fi.node.args
